@@ -8,6 +8,7 @@ import (
 	"io/fs"
 	"os"
 	"path/filepath"
+	"strings"
 	"syscall"
 
 	"github.com/oklog/ulid/v2"
@@ -75,7 +76,52 @@ func (bs *filesystemPartStore) Start(ctx context.Context) error {
 	if err := bs.ValidatedLifecycle.Start(ctx); err != nil {
 		return err
 	}
-	return bs.ensureRootDir()
+	if err := bs.ensureRootDir(); err != nil {
+		return err
+	}
+	return bs.recoverInterruptedCommits()
+}
+
+// recoverInterruptedCommits repairs what a process crash during a transaction
+// commit left behind. No transaction is in flight when the store starts, so:
+//   - a part that a pre-commit hook renamed away to "<part>.txbackup.<id>" is put
+//     back when the part file is missing. If the database transaction did commit,
+//     the restored part is unreferenced and the garbage collector reclaims it; if
+//     it did not, the part is still referenced and must be readable again.
+//   - a backup whose part file exists is left alone (it cannot be decided here
+//     which of the two the database expects).
+//   - temporary files of parts that were never published are removed.
+func (bs *filesystemPartStore) recoverInterruptedCommits() error {
+	dirEntries, err := os.ReadDir(bs.root)
+	if err != nil {
+		return err
+	}
+	for _, dirEntry := range dirEntries {
+		if dirEntry.IsDir() {
+			continue
+		}
+		name := dirEntry.Name()
+		if partName, _, isBackup := strings.Cut(name, ".txbackup."); isBackup {
+			if _, ok := bs.tryGetPartIdFromFilename(partName); !ok {
+				continue
+			}
+			partFilename := filepath.Join(bs.root, partName)
+			if _, statErr := os.Stat(partFilename); errors.Is(statErr, fs.ErrNotExist) {
+				if err := os.Rename(filepath.Join(bs.root, name), partFilename); err != nil {
+					return err
+				}
+			}
+			continue
+		}
+		if strings.HasPrefix(name, ".") && strings.HasSuffix(name, ".tmp") {
+			if _, ok := bs.tryGetPartIdFromFilename(strings.SplitN(strings.TrimPrefix(name, "."), ".", 2)[0]); ok {
+				if err := os.Remove(filepath.Join(bs.root, name)); err != nil && !errors.Is(err, fs.ErrNotExist) {
+					return err
+				}
+			}
+		}
+	}
+	return nil
 }
 
 func (bs *filesystemPartStore) PutPart(ctx context.Context, tx database.Tx, partId partstore.PartId, reader io.Reader) error {
